@@ -227,6 +227,10 @@ def chem_instances(tier):
     add(M("C[>]", S("[>]", ["[<][Si](C)(C)O[>]"], [], "[<]", g(150)), "[<][Si](C)(C)C", name="chem-siloxane"))
     add(M(S("[]", ["[$]c1cc2ccccc2cc1[$]", "[$]C1CCC([$])CC1"], ["[$][13CH3]", "[$]F"], "[]", g(200)), name="chem-polycyclic"))
     add(M("S(=O)(=O)(O)C[<]", S("[<]", ["[>]NC(=O)C[<]", "[>]N(C)C(=O)C[<]"], [], "[>]", g(120)), "[>]OC(C)(C)C", name="chem-amide"))
+    # descriptors in a branch of their own inside a side chain (branch depth 2 and 3): the descriptor's atom is the atom the branch hangs on,
+    # not the root of the token
+    add(M("C[>]", S("[>]", ["[<]CC(C(=O)OCC([>2])C)[>]", "[<2]CO[>2]"], ["[<2]F", "[<][H]"], "[<]", g(150)), "[<]O", name="chem-descriptor-at-depth-2"))
+    add(M("CC(C(=O)OCC([>])C)C", S("[>]", ["[<]CC(C(=O)OC(C(C)([>]))C)[>]", "[<]CC[>]"], ["[<][H]"], "[<]", g(160)), "[<]N", name="chem-descriptor-at-depth-3"))
     return I
 
 
